@@ -40,6 +40,17 @@ def specs(tier):
                     spec['prince'] = D.PRINCE
                     spec['omen'] = OMEN_A
                     yield spec
+    # a dominant Markov structure: p / (1 - P(M)) rounds to just above 1.0 for the one remaining structure (0.1 / (1 - 0.9) = 1.0000000000000002)
+    for term in D.TERMINALS[:3]:
+        for st in CANDS:
+            if st == 'M':
+                continue
+            for p, pm, m_first in ((.1, .9, False), (.2, .8, True), (.3, .7, False)):
+                spec = dict(term)
+                spec['grammar'] = [('M', pm), (st, p)] if m_first else [(st, p), ('M', pm)]
+                spec['prince'] = D.PRINCE
+                spec['omen'] = OMEN_A
+                yield spec
 
 
 def shards(tier):
